@@ -436,7 +436,7 @@ def run_schedule_shard(res: Result, shard, tier):
     make = HARNESSES.get(name) or EXTRA_HARNESSES[name]
     bound = shard["bound"]
     if shard["fresh"]:
-        return run_schedule_fresh(res, shard, make, name, bound)
+        return run_schedule_forked(res, shard, make, name, bound)
     # warm up (imports), reference observations, determinism of the default schedule
     ref = sequential_reference(make)
     ref2 = sequential_reference(make)
@@ -484,7 +484,19 @@ def run_schedule_shard(res: Result, shard, tier):
     e2 = sched.Execution(p2, [], gran).run()
     if [(p["running"], p["label"]) for p in e1.points] != [(p["running"], p["label"]) for p in e2.points]:
         raise RuntimeError(f"harness {name}: the default schedule is not reproducible (different scheduling points on two runs)")
-    stats = sched.explore(mk, bound, check, granularity=gran, first_slice=tuple(shard["slice"]) if shard.get("slice") else None)
+    first_slice = tuple(shard["slice"]) if shard.get("slice") else None
+    template = _Template(lambda: _forked_from_here(shard, make, name, bound, gran, first_slice, repr(ref)))
+    try:
+        stats = sched.explore(mk, bound, check, granularity=gran, first_slice=first_slice)
+        template.discard()
+    except sched.Divergence as e:
+        # The same choice prefix reached different scheduling points than when it was recorded: executions in this process
+        # influence later ones.  That alone is not a violation (a correct cache would do it); the exploration is redone with
+        # every schedule in its own forked copy of the present process state, which cannot be influenced by earlier ones.
+        res.count("in_process_replay_diverged_redone_forked")
+        res.sample({"kind": "schedule", "harness": name, "note": f"in-process exploration diverged ({str(e)[:160]}); redone with one forked process per schedule"})
+        res.merge(template.run())  # explored from the warmed-up state as it was *before* the in-process executions
+        return None
     res.counters[f"schedules_{name}"] = res.counters.get(f"schedules_{name}", 0) + stats["executions"]
     res.counters["scheduling_points_max"] = max(res.counters.get("scheduling_points_max", 0), stats["points_max"])
     res.counters["preemption_bound_max"] = max(res.counters.get("preemption_bound_max", 0), bound)
@@ -494,10 +506,66 @@ def run_schedule_shard(res: Result, shard, tier):
     res.sample({"kind": "schedule", "harness": name, "threads": len(make()[0]), "preemption_bound": bound, "granularity": gran, "schedules": stats["executions"], "scheduling_points": stats["points_max"], "distinct_outcomes": len(outcomes)})
 
 
-def run_schedule_fresh(res: Result, shard, make, name, bound):
-    """every schedule in a freshly forked process: the first-ever calls (lazy imports) are interleaved"""
-    if any(m.startswith("vector._compute.planar.") for m in sys.modules):
+class _Template:
+    """A forked copy of the present (warmed-up, not yet explored) process state, parked until needed."""
+
+    def __init__(self, job):
+        import pickle
+
+        self.go_r, self.go_w = os.pipe()
+        self.out_r, self.out_w = os.pipe()
+        self.pid = os.fork()
+        if self.pid == 0:
+            code = 0
+            try:
+                os.close(self.go_w)
+                os.close(self.out_r)
+                if os.read(self.go_r, 1) == b"g":
+                    with os.fdopen(self.out_w, "wb") as fh:
+                        pickle.dump(job(), fh)
+            except BaseException:  # noqa: BLE001
+                code = 3
+                try:
+                    os.write(self.out_w, pickle.dumps(RuntimeError(traceback.format_exc())))
+                except Exception:  # noqa: BLE001
+                    pass
+            finally:
+                os._exit(code)
+        os.close(self.go_r)
+        os.close(self.out_w)
+
+    def discard(self):
+        os.write(self.go_w, b"x")
+        os.close(self.go_w)
+        os.close(self.out_r)
+        os.waitpid(self.pid, 0)
+
+    def run(self):
+        import pickle
+
+        os.write(self.go_w, b"g")
+        os.close(self.go_w)
+        with os.fdopen(self.out_r, "rb") as fh:
+            data = fh.read()
+        os.waitpid(self.pid, 0)
+        out = pickle.loads(data) if data else RuntimeError("no output from the template process")
+        if isinstance(out, BaseException):
+            raise out
+        return out
+
+
+def _forked_from_here(shard, make, name, bound, gran, first_slice, ref_repr):
+    r = Result()
+    run_schedule_forked(r, shard, make, name, bound, gran=gran, fresh=False, first_slice=first_slice, ref_repr=ref_repr)
+    return r
+
+
+def run_schedule_forked(res: Result, shard, make, name, bound, gran="line", fresh=True, first_slice=None, ref_repr=None):
+    """every schedule in its own forked process.  fresh=True: forked from a process that has not imported the compute
+    modules, so the first-ever calls (lazy imports) are interleaved; fresh=False: forked from the warmed-up process."""
+    if fresh and any(m.startswith("vector._compute.planar.") for m in sys.modules):
         raise RuntimeError("harness: compute modules already imported in the exploring process (state is not fresh)")
+    tag = "fresh" if fresh else "forked"
 
     def child(prefix, want_ref):
         r, w = os.pipe()
@@ -512,7 +580,7 @@ def run_schedule_fresh(res: Result, shard, make, name, bound):
                     programs, operands = make()
                     before = [B.snapshot(o) for o in operands]
                     g0 = Gl.snapshot()
-                    x = sched.Execution(programs, prefix).run()
+                    x = sched.Execution(programs, prefix, gran).run()
                     out = {"choices": x.choices, "points": [{"running": p["running"], "enabled": p["enabled"], "label": list(p["label"]) if isinstance(p["label"], tuple) else p["label"], "still_enabled": p["still_enabled"]} for p in x.points],
                            "nlabels": len(x.labels), "errors": [None if e is None else f"{type(e).__name__}: {e}" for e in x.errors], "obs": repr(tuple(observe(v) for v in x.results)),
                            "operands_same": [B.snapshot(o) for o in operands] == before, "glob_same": Gl.snapshot() == g0}
@@ -535,7 +603,7 @@ def run_schedule_fresh(res: Result, shard, make, name, bound):
             raise RuntimeError(out["harness_error"])
         return out
 
-    ref = child([], True)["ref"]
+    ref = ref_repr if ref_repr is not None else child([], True)["ref"]
     outcomes = set()
 
     class X:
@@ -561,25 +629,25 @@ def run_schedule_fresh(res: Result, shard, make, name, bound):
         res.evaluations += 1
         res.transitions += len(x.points)
         res.traces += 1
-        case = {"kind": "schedule", "harness": name, "choices": x.choices, "bound": bound, "fresh": True}
+        case = {"kind": "schedule", "harness": name, "choices": x.choices, "bound": bound, "fresh": fresh, "forked": True, "granularity": gran}
         where = [x.points[i]["label"] for i, c in enumerate(x.choices) if c != 0 and x.points[i]["still_enabled"]]
         if any(o["errors"]):
-            res.violation(f"schedule_exception|{name}|fresh", f"a thread raised {o['errors']} under schedule {x.choices} in a fresh process (preempted at {where})", case)
+            res.violation(f"schedule_exception|{name}|{tag}", f"a thread raised {o['errors']} under schedule {x.choices} in a {tag} process (preempted at {where})", case)
             return
         outcomes.add(o["obs"])
         if o["obs"] != ref:
-            res.violation(f"schedule_result|{name}|fresh", f"results differ from the sequential ones under schedule {x.choices} in a fresh process (preempted at {where})", case)
+            res.violation(f"schedule_result|{name}|{tag}", f"results differ from the sequential ones under schedule {x.choices} in a {tag} process (preempted at {where})", case)
             return
         if not o["operands_same"] or not o["glob_same"]:
-            res.violation(f"schedule_state|{name}|fresh", f"operands or global state changed under schedule {x.choices} in a fresh process", case)
+            res.violation(f"schedule_state|{name}|{tag}", f"operands or global state changed under schedule {x.choices} in a {tag} process", case)
             return
         if where:
             res.nontrivial += 1
 
-    stats = sched.explore(None, bound, check, runner=runner)
-    res.counters[f"schedules_fresh_{name}"] = stats["executions"]
+    stats = sched.explore(None, bound, check, runner=runner, first_slice=first_slice)
+    res.counters[f"schedules_{tag}_{name}"] = res.counters.get(f"schedules_{tag}_{name}", 0) + stats["executions"]
     res.counters["scheduling_points_max"] = max(res.counters.get("scheduling_points_max", 0), stats["points_max"])
-    res.sample({"kind": "schedule (fresh process per schedule)", "harness": name, "preemption_bound": bound, "schedules": stats["executions"], "distinct_outcomes": len(outcomes)})
+    res.sample({"kind": f"schedule ({tag} process per schedule)", "harness": name, "preemption_bound": bound, "schedules": stats["executions"], "distinct_outcomes": len(outcomes)})
 
 
 def run_shard(shard, tier):
@@ -623,27 +691,58 @@ def replay(case):
                 res.violation(f"{clause}|{hist[-1]}|{case['config']}", f"[config {case['config']}] history {hist}: {msg}", case)
         return res
     # schedules are replayed in a forked child so that a leaked global change cannot influence the second replay
-    r, w = os.pipe()
-    pid = os.fork()
-    if pid == 0:
-        os.close(r)
-        out = _replay_schedule(case)
-        os.write(w, json.dumps([[c, v["msg"]] for c, v in out.violation_classes().items()]).encode())
-        os._exit(0)
-    os.close(w)
-    with os.fdopen(r, "rb") as fh:
-        data = json.loads(fh.read() or b"[]")
-    os.waitpid(pid, 0)
+    pre = None
+    if case.get("fresh"):
+        # the reference comes from its own child so that the replayed execution starts with nothing imported, as when found
+        name = case["harness"]
+        make = HARNESSES.get(name) or EXTRA_HARNESSES[name]
+        pre = _in_child(lambda: repr(sequential_reference(make)))
+    elif case.get("forked"):
+        # same warm-up as the exploring process: two sequential runs and the default schedule twice
+        name = case["harness"]
+        make = HARNESSES.get(name) or EXTRA_HARNESSES[name]
+        sequential_reference(make)
+        pre = repr(sequential_reference(make))
+        for _ in range(2):
+            sched.Execution(make()[0], [], case.get("granularity", "line")).run()
+    data = _in_child(lambda: [[c, v["msg"]] for c, v in _replay_schedule(case, pre).violation_classes().items()])
     for c, m in data:
         res.violation(c, m, case)
     return res
 
 
-def _replay_schedule(case):
+def _in_child(fn):
+    r, w = os.pipe()
+    pid = os.fork()
+    if pid == 0:
+        code = 0
+        try:
+            os.close(r)
+            with os.fdopen(w, "wb") as fh:
+                fh.write(json.dumps({"ok": fn()}).encode())
+        except BaseException:  # noqa: BLE001
+            code = 3
+            try:
+                os.write(w, json.dumps({"harness_error": traceback.format_exc()}).encode())
+            except Exception:  # noqa: BLE001
+                pass
+        finally:
+            os._exit(code)
+    os.close(w)
+    with os.fdopen(r, "rb") as fh:
+        data = fh.read()
+    os.waitpid(pid, 0)
+    out = json.loads(data) if data else {"harness_error": "no output from the child"}
+    if "harness_error" in out:
+        raise RuntimeError(out["harness_error"])
+    return out["ok"]
+
+
+def _replay_schedule(case, ref_repr=None):
     res = Result()
     name = case["harness"]
     make = HARNESSES.get(name) or EXTRA_HARNESSES[name]
-    ref = sequential_reference(make)
+    ref = sequential_reference(make) if ref_repr is None else None
     programs, operands = make()
     before = [B.snapshot(o) for o in operands]
     g0 = Gl.snapshot()
@@ -654,7 +753,7 @@ def _replay_schedule(case):
         return res
     if any(e is not None for e in x.errors):
         res.violation(f"schedule_exception|{name}", f"threads raised {x.errors} under schedule {case['choices']}", case)
-    elif obs != ref:
+    elif (obs != ref) if ref_repr is None else (repr(obs) != ref_repr):
         res.violation(f"schedule_result|{name}", f"results differ from the sequential ones under schedule {case['choices']}", case)
     elif [B.snapshot(o) for o in operands] != before:
         res.violation(f"schedule_operand_modified|{name}", "shared operands changed", case)
